@@ -156,9 +156,11 @@ type Backend struct {
 	Name                       string
 	Creator                    map[string]*Submission // identity hash -> the submission whose QueueLeaf stored the leaf
 	AllCalls                   []*BackendCall         // every call answered so far, whoever made it
+	Ahead                      time.Duration          // the backend's (signer's) clock runs this far ahead of the front ends' clocks
 }
 
-func (b *Backend) nowNanos() int64 { return time.Now().UnixNano() }
+// nowNanos is the backend's own clock (queue timestamps, root timestamps): the simulation's clock plus Ahead.
+func (b *Backend) nowNanos() int64 { return time.Now().Add(b.Ahead).UnixNano() }
 
 func ctxErr(err error) error { return status.FromContextError(err).Err() }
 
